@@ -33,7 +33,8 @@ RULE += ' ' + 'Also: insertion of one non-ASCII character; append / truncate of 
 ASSUMPTIONS = ['edits that only touch the final newline or a trailing blank '
                'line are not produced (C04 documents that tolerance)']
 
-OPS = ['sub', 'ins', 'del', 'trail', 'addline', 'delline', 'ins_na']
+OPS = ['sub', 'ins', 'del', 'trail', 'addline', 'delline', 'ins_na',
+       'ins_token']
 
 
 @st.composite
@@ -145,6 +146,12 @@ def mutate_lines(lines, m, env):
     elif op == 'ins':
         j = m['j'] % (len(ln) + 1)
         lines[i] = ln[:j] + 'Q' + ln[j:]
+    elif op == 'ins_token':
+        # an ordinary line starts to mention the working directory (lines
+        # of the REFERENCE that mention it may be excluded; this line of the
+        # reference does not)
+        lines[i] = ln + ' cannot write {CWD}/two.dat'
+        return lines
     elif op == 'ins_na':
         # a character outside ASCII (the reference may be all ASCII)
         j = m['j'] % (len(ln) + 1)
@@ -231,7 +238,7 @@ def run(case, ctx):
                         continue
                     j = len(data) - 1
                     del data[j]             # one byte less at the end
-                elif m['op'] in ('ins', 'ins_na'):
+                elif m['op'] in ('ins', 'ins_na', 'ins_token'):
                     data.insert(j, 0x51)
                 else:
                     if len(data) < 2:
